@@ -48,11 +48,11 @@ CONF = {
                 big=[("kinds3", 400, 4000), ("big", 40, 600)], enum=True),
     "C06": dict(prefixes=("C06.",), builds=("pure",),
                 model=[("ctx", 400, 4000), ("ctxsync", 300, 3000), ("ctxfaults", 300, 3000), ("nonasync", 300, 3000), ("nonasyncfaults", 400, 4000), ("kill", 400, 4000),
-                       ("override", 150, 1500), ("timer", 250, 2500), ("timersync", 150, 1500), ("timerfaults", 150, 1500)],
+                       ("override", 150, 1500), ("overridenonasync", 150, 1500), ("timer", 250, 2500), ("timersync", 150, 1500), ("timerfaults", 150, 1500)],
                 big=[("ctxsync", 300, 3000), ("nonasync", 200, 2000)]),
     "C07": dict(prefixes=("C07.",), builds=("pure",),
                 model=[("override", 400, 5000), ("overridesync", 300, 3500), ("overridefaults", 300, 3500), ("ctx", 100, 1500),
-                       ("overridedag", 500, 5000), ("overrideset", 400, 4000), ("overrideapi", 300, 3000)],
+                       ("overridedag", 500, 5000), ("overrideset", 400, 4000), ("overrideapi", 300, 3000), ("overridenonasync", 250, 2500)],
                 big=[("overridesync", 300, 3000), ("overridefaults", 300, 3000)]),
     "C08": dict(prefixes=("C08.",), builds=("pure",),
                 model=[("session", 400, 4000), ("syncfaults", 200, 2500), ("overflow", 300, 3000), ("overflowbatch", 400, 4000), ("sync", 150, 1500), ("throw", 250, 2500), ("spawnsync", 300, 3000), ("lazyfail", 150, 1500),
@@ -236,6 +236,10 @@ def main():
                 en = plang.enum_trees(2, 2, 2, ("ok",), bs) + plang.enum_trees(3, 2, 2, ("ok",), bs, child_nseg=1) + \
                     plang.enum_trees(4, 1, 2, ("ok",), bs)
                 desc = "all tree programs with <=2 tasks x <=2 yields, <=3 tasks (children 1 yield), <=4 tasks x 1 yield; <=2 leaves/yield, 2 kinds, 3 priority assignments"
+            if pid == "C01":
+                em = plang.enum_empties()
+                en = en + em
+                desc += "; %d programs yielding future-free structures ({}, [], (), None, containers of them) twice in siblings and root" % len(em)
             fam += [("enum", p) for p in en]
             cov["enumerated_family"] = "%s: %d programs, every one model-checked under all schedules and replayed" % (desc, len(en))
         if pid == "C03":
